@@ -33,6 +33,15 @@ CLAIMED["C16"] = ("static: map-iteration order analysis (range-over-map bodies c
   "Trusts strings.Builder / range-over-string. Does not decide the numeric-literal grammar of isNumeric (a hand-written recogniser) nor decoded equality for every input.",
   "DESIGN.md §3 C16")
 
+CLAIMED["C13"] = ("static: effect analysis of comparator literals (no writes to captured state), per-pair-strategy shape rule, map-iteration order analysis with sorted-before-use through callers, name tie-break rule for name/value comparators, constant evaluation of the calendar tables, shape rules for Reverse / value sorter / modifier table",
+  "Decides the structural conditions under which displayed order is a function of the data: pure comparators, no per-pair choice of relation without class ordering, no map order reaching output, tie-breaks on names, Reverse as negation of the same comparator, calendar tables at calendar positions. Two genuine impure comparators (contextual, date) are recorded as known findings.",
+  "Trusts sort.Sort, dateparse/time. Does not decide chronological/numeric correctness of each mode.",
+  "DESIGN.md §3 C13")
+CLAIMED["C03"] = ("static: who-may-call rule for aggregator mutators + lock-set/dominance rules on RunAggregationLoop, map-iteration order analysis, name tie-break rule, flow rules on pkg/csv (encoding/csv only, Flush dominates Close), path enumeration of DetermineErrorState",
+  "Decides the determinism clauses of the property that are visible in the code: aggregators are mutated only inside the serialised aggregation loop, no exported result is produced in hash order, CSV records go through encoding/csv and are flushed, and the exit status function returns the documented status on each of its paths and is what every aggregating command returns.",
+  "Trusts encoding/csv. Does not decide equality with an independent aggregation for every corpus nor CSV round trip of arbitrary keys.",
+  "DESIGN.md §3 C03")
+
 PENDING_REASON = "static check for this property is designed in DESIGN.md §3 but not yet built in this revision of /verif; not claimed until it runs"
 
 def main():
